@@ -1,65 +1,82 @@
 -------------------------------- MODULE Cleanup --------------------------------
 (***************************************************************************)
-(* Design model of what may remove a file of the key-value store (C08):    *)
-(* the memtable thread's flush (link, manifest +S, log to trash), a        *)
-(* compaction (link outputs, one manifest edit -inputs +outputs, inputs    *)
-(* renamed to trash once no reader holds them), manifest roll-over,        *)
-(* readers, the offline verifier's unlinks, a crash at any point, and      *)
-(* reopen = roll-over, replay of the logs left in the root (re-creating    *)
-(* their files and adding them to the live MANIFEST when it does not list  *)
-(* them), then the orphan scan over ALL fragments, the live one included.  *)
+(* Design model of everything that may take a file out of sst/ (C08):      *)
+(*   - the memtable thread: link S, manifest +S and install the version,   *)
+(*     rename the log into trash/ (three steps);                           *)
+(*   - a compaction: link the outputs (an existing name is not an error),  *)
+(*     then the manifest edit -inputs +outputs and the installation of the *)
+(*     new version;                                                        *)
+(*   - installation as in LsmTree::install_version: count the new          *)
+(*     version's files up, swap, and if nobody else holds the old version  *)
+(*     count its files down; a file whose count reaches zero is renamed    *)
+(*     into trash/ by a later, separate step (explicit_unref: the rename   *)
+(*     is not atomic with the count);                                      *)
+(*   - readers: take the current version, drop it later (the last holder   *)
+(*     counts the version's files down, as above);                         *)
+(*   - manifest roll-over, the verifier consuming the oldest fragment;     *)
+(*   - a crash at any point; reopen = roll-over, replay of the logs left   *)
+(*     in the root (link if absent, +S in the live MANIFEST if not         *)
+(*     listed), then the orphan scan over ALL fragments, the live one      *)
+(*     included, skipping each fragment's first edit (the roll-up).        *)
 (*                                                                         *)
-(* The memtable thread and the compaction are separate processes here:     *)
-(* every interleaving of their steps is explored, which the sequential     *)
-(* driver of the trace campaigns cannot do (it reaches one of them with    *)
-(* the shim's SHIM_STALL_AT, see Trace_Disk!Stall).                        *)
+(* The memtable thread, the compaction and the readers are separate        *)
+(* processes: every interleaving of their steps is explored, which the     *)
+(* sequential driver of the trace campaigns cannot do (it reaches one      *)
+(* family of them with the shim's SHIM_STALL_AT, see Trace_Disk!Stall).    *)
 (*                                                                         *)
-(* A file is identified by its contents (= setsum = name): replaying a log *)
-(* yields the same file again, and a compaction may re-create a file it    *)
-(* (or an earlier one) removed.                                            *)
+(* A file is identified by its contents (= setsum = name).  Replaying a    *)
+(* log yields the same file again.  A compaction may re-create one of its  *)
+(* own inputs (the code's NOTE: "sometimes compaction generates the same   *)
+(* file as input and output").  Whether a LATER compaction can re-create a *)
+(* file an EARLIER one removed is the constant CrossRecreate: no history   *)
+(* that does it was found in the real store (DESIGN.md 10.20).             *)
 (*                                                                         *)
-(* Deviations (negative controls, each a seeded change that was made to    *)
-(* the real code by an independent agent):                                 *)
-(*   "ScanSkipsLive"       the orphan scan does not read the live MANIFEST *)
-(*   "ScanAddsBeforeRms"   per edit, adds are subtracted before removes    *)
-(*                          are inserted                                    *)
-(*   "ReplaySkipsListing"  replay does not add a file it found linked      *)
-(*   "VerifierIgnoresLater" the verifier unlinks a trash entry although a  *)
-(*                          later edit re-adds the name                     *)
+(* Deviations (negative controls; the first three are changes independent  *)
+(* agents made to the real code):                                          *)
+(*   "ScanSkipsLive"      the orphan scan does not read the live MANIFEST  *)
+(*   "ScanAddsBeforeRms"  per edit, adds are subtracted before the removes *)
+(*                        are inserted                                     *)
+(*   "ReplaySkipsListing" replay does not list a file it found linked      *)
+(*   "UnrefIgnoresCount"  installation renames every file of the old       *)
+(*                        version that the new one lacks, held or not      *)
 (***************************************************************************)
 EXTENDS Naturals, Sequences, FiniteSets, TLC
 
-CONSTANTS Files,        \* file identities (what a log flushes to, what a compaction writes)
-          MaxEdits,     \* bound on manifest edits (besides roll-ups)
-          MaxFrags,     \* bound on fragments
-          MaxCrash,
+CONSTANTS LogFiles,     \* identities of the files logs flush to
+          OutFiles,     \* identities compactions may write besides their inputs
+          MaxEdits, MaxFrags, MaxCrash, MaxHeld,
+          CrossRecreate,
           Dev
 
-VARIABLES frags,      \* sequence of fragments, the last one is the live MANIFEST; a fragment is a sequence of edits
-                      \* [rm |-> set, add |-> set]; its first edit is the roll-up of what came before
+Files == LogFiles \cup OutFiles
+
+VARIABLES frags,      \* sequence of fragments, the last is the live MANIFEST; a fragment is a sequence of edits
+                      \* [rm |-> set, add |-> set] and starts with the roll-up of what came before
           sst, trash, \* names present in sst/ and trash/
           logs,       \* logs in the root, each named by the file its replay yields
-          up,         \* the process is running
-          mpc, mfile, \* memtable thread: "idle" | "linked" | "listed" and the file in flight
-          cpc, cins, couts, \* compaction: "idle" | "linked" | "edited" and its inputs / outputs
-          pinned,     \* files of versions a reader still holds
-          unref,      \* files whose last version went away: to be renamed into trash/
-          used,       \* file identities already written by a client (each log is written once)
-          edits, crashes
+          written,    \* log identities already used
+          up,
+          cur,        \* the current version [id, files]
+          held,       \* versions readers hold
+          cnt,        \* the reference counter: file -> number of live versions naming it
+          todo,       \* files whose count reached zero: renames into trash/ still to be made
+          mpc, mfile, \* memtable thread: "idle" | "linked" | "installed", and its file
+          cpc, cins, couts,   \* compaction: "idle" | "linked"
+          removedEver,        \* names some edit removed (for CrossRecreate)
+          vid, edits, crashes
 
-vars == <<frags, sst, trash, logs, up, mpc, mfile, cpc, cins, couts, pinned, unref, used, edits, crashes>>
+vars == <<frags, sst, trash, logs, written, up, cur, held, cnt, todo, mpc, mfile, cpc, cins, couts, removedEver, vid, edits, crashes>>
 
 (* ------------------------------- the manifest ----------------------------- *)
-Apply(s, e) == (s \ e.rm) \cup e.add          \* mani applies removes, then adds
+Apply(s, e) == (s \ e.rm) \cup e.add          \* mani applies an edit's removes, then its adds
 RECURSIVE FoldEdits(_, _, _)
 FoldEdits(s, es, i) == IF i > Len(es) THEN s ELSE FoldEdits(Apply(s, es[i]), es, i + 1)
-Live == frags[Len(frags)]
-Listed == FoldEdits({}, Live, 1)               \* the live MANIFEST starts with a roll-up: it alone says what is listed
-AppendEdit(e) == [frags EXCEPT ![Len(frags)] = Append(@, e)]
-RollUp == [rm |-> {}, add |-> Listed]
-Rolled == Append(frags, <<RollUp>>)
+ListedIn(fs) == FoldEdits({}, fs[Len(fs)], 1)  \* the live MANIFEST starts with a roll-up: it alone says what is listed
+Listed == ListedIn(frags)
+AppendEdit(fs, e) == [fs EXCEPT ![Len(fs)] = Append(@, e)]
+Rolled(fs) == Append(fs, <<[rm |-> {}, add |-> ListedIn(fs)]>>)
 
-(* the orphan scan: every fragment, every edit but the fragment's first *)
+(* the orphan scan *)
 ScanEdit(s, e) == IF "ScanAddsBeforeRms" \in Dev THEN (s \ e.add) \cup e.rm ELSE (s \cup e.rm) \ e.add
 RECURSIVE ScanFrag(_, _, _)
 ScanFrag(s, es, i) == IF i > Len(es) THEN s ELSE ScanFrag(ScanEdit(s, es[i]), es, i + 1)
@@ -67,111 +84,133 @@ RECURSIVE ScanAll(_, _, _)
 ScanAll(s, fs, k) == IF k > Len(fs) THEN s ELSE ScanAll(ScanFrag(s, fs[k], 2), fs, k + 1)
 Orphans(fs) == ScanAll({}, IF "ScanSkipsLive" \in Dev THEN SubSeq(fs, 1, Len(fs) - 1) ELSE fs, 1)
 
+(* ------------------------------ reference counts -------------------------- *)
+Up1(c, S) == [f \in Files |-> IF f \in S THEN c[f] + 1 ELSE c[f]]
+Down1(c, S) == [f \in Files |-> IF f \in S /\ c[f] > 0 THEN c[f] - 1 ELSE c[f]]
+Zeroed(c, S) == {f \in S : c[f] = 1}           \* those a count-down of S takes to zero
+Zero == [f \in Files |-> 0]
+
+\* install_version(new): count new up; swap; if no reader holds the old version, count it down
+Install(newfiles) ==
+  LET c1 == Up1(cnt, newfiles)
+      oldheld == cur \in held
+      gone == IF "UnrefIgnoresCount" \in Dev THEN cur.files \ newfiles
+              ELSE IF oldheld THEN {} ELSE Zeroed(c1, cur.files)
+  IN /\ cur' = [id |-> vid + 1, files |-> newfiles] /\ vid' = vid + 1
+     /\ cnt' = IF oldheld THEN c1 ELSE Down1(c1, cur.files)
+     /\ todo' = todo \cup gone
+
 (* ----------------------------------- init -------------------------------- *)
 Init == /\ frags = << <<[rm |-> {}, add |-> {}]>> >>
-        /\ sst = {} /\ trash = {} /\ logs = {} /\ up = TRUE
-        /\ mpc = "idle" /\ mfile = 0 /\ cpc = "idle" /\ cins = {} /\ couts = {}
-        /\ pinned = {} /\ unref = {} /\ used = {} /\ edits = 0 /\ crashes = 0
+        /\ sst = {} /\ trash = {} /\ logs = {} /\ written = {} /\ up = TRUE
+        /\ cur = [id |-> 0, files |-> {}] /\ held = {} /\ cnt = Zero /\ todo = {}
+        /\ mpc = "idle" /\ mfile = "" /\ cpc = "idle" /\ cins = {} /\ couts = {}
+        /\ removedEver = {} /\ vid = 0 /\ edits = 0 /\ crashes = 0
 
 (* --------------------------------- clients ------------------------------- *)
-\* writes fill a log; what it will flush to is f
-WriteLog(f) == /\ up /\ f \notin used
-               /\ logs' = logs \cup {f} /\ used' = used \cup {f}
-               /\ UNCHANGED <<frags, sst, trash, up, mpc, mfile, cpc, cins, couts, pinned, unref, edits, crashes>>
-Hold == /\ up /\ pinned' = pinned \cup Listed
-        /\ UNCHANGED <<frags, sst, trash, logs, up, mpc, mfile, cpc, cins, couts, unref, used, edits, crashes>>
-Drop == /\ up /\ pinned # {} /\ pinned' = {}
-        /\ unref' = unref \cup (pinned \ Listed)      \* the reader's was the last version naming them
-        /\ UNCHANGED <<frags, sst, trash, logs, up, mpc, mfile, cpc, cins, couts, used, edits, crashes>>
+WriteLog(f) == /\ up /\ f \in LogFiles \ written
+               /\ logs' = logs \cup {f} /\ written' = written \cup {f}
+               /\ UNCHANGED <<frags, sst, trash, up, cur, held, cnt, todo, mpc, mfile, cpc, cins, couts, removedEver, vid, edits, crashes>>
+Hold == /\ up /\ cur \notin held /\ Cardinality(held) < MaxHeld
+        /\ held' = held \cup {cur}
+        /\ UNCHANGED <<frags, sst, trash, logs, written, up, cur, cnt, todo, mpc, mfile, cpc, cins, couts, removedEver, vid, edits, crashes>>
+\* VersionRef::drop -> explicit_unref: nothing if the tree still holds this version, else count its files down
+Drop(v) == /\ up /\ v \in held /\ held' = held \ {v}
+           /\ IF v.id = cur.id THEN UNCHANGED <<cnt, todo>>
+              ELSE cnt' = Down1(cnt, v.files) /\ todo' = todo \cup Zeroed(cnt, v.files)
+           /\ UNCHANGED <<frags, sst, trash, logs, written, up, cur, mpc, mfile, cpc, cins, couts, removedEver, vid, edits, crashes>>
+\* the rename of explicit_unref, some time after the count (its result is ignored)
+Rename(f) == /\ up /\ f \in todo /\ todo' = todo \ {f}
+             /\ IF f \in sst THEN sst' = sst \ {f} /\ trash' = trash \cup {f} ELSE UNCHANGED <<sst, trash>>
+             /\ UNCHANGED <<frags, logs, written, up, cur, held, cnt, mpc, mfile, cpc, cins, couts, removedEver, vid, edits, crashes>>
 
 (* ------------------------------ memtable thread --------------------------- *)
-MLink == /\ up /\ mpc = "idle" /\ \E f \in logs : mfile' = f /\ sst' = sst \cup {f}
+\* _ingest refuses a name that exists in sst/ (duplicate_sst): the model does not go there
+MLink == /\ up /\ mpc = "idle" /\ \E f \in logs : f \notin sst /\ mfile' = f /\ sst' = sst \cup {f}
          /\ mpc' = "linked"
-         /\ UNCHANGED <<frags, trash, logs, up, cpc, cins, couts, pinned, unref, used, edits, crashes>>
-MList == /\ up /\ mpc = "linked" /\ edits < MaxEdits
-         /\ frags' = AppendEdit([rm |-> {}, add |-> {mfile}]) /\ edits' = edits + 1
-         /\ mpc' = "listed"
-         /\ UNCHANGED <<sst, trash, logs, up, mfile, cpc, cins, couts, pinned, unref, used, crashes>>
-MTrashLog == /\ up /\ mpc = "listed"
-             /\ logs' = logs \ {mfile} /\ mpc' = "idle" /\ mfile' = 0
-             /\ UNCHANGED <<frags, sst, trash, up, cpc, cins, couts, pinned, unref, used, edits, crashes>>
+         /\ UNCHANGED <<frags, trash, logs, written, up, cur, held, cnt, todo, cpc, cins, couts, removedEver, vid, edits, crashes>>
+MInstall == /\ up /\ mpc = "linked" /\ edits < MaxEdits
+            /\ frags' = AppendEdit(frags, [rm |-> {}, add |-> {mfile}]) /\ edits' = edits + 1
+            /\ Install(cur.files \cup {mfile})
+            /\ mpc' = "installed"
+            /\ UNCHANGED <<sst, trash, logs, written, up, held, mfile, cpc, cins, couts, removedEver, crashes>>
+MTrashLog == /\ up /\ mpc = "installed"
+             /\ logs' = logs \ {mfile} /\ mpc' = "idle" /\ mfile' = ""
+             /\ UNCHANGED <<frags, sst, trash, written, up, cur, held, cnt, todo, cpc, cins, couts, removedEver, vid, edits, crashes>>
 
 (* -------------------------------- compaction ------------------------------ *)
-\* inputs: listed files not in flight; outputs: nothing (all collected), a fresh file, or a re-created one
-CLink == /\ up /\ cpc = "idle"
-         /\ \E ins \in (SUBSET Listed) \ {{}} :
-              \E outs \in {{}} \cup {{f} : f \in Files \ (Listed \ ins)} :
-                 \* a fresh output is a name no log will ever flush to in this model; a re-created one is an input or an old name
-                 /\ outs \cap logs = {} /\ (outs \cap used = {} => outs \cap (Files \ used) = outs)
-                 /\ cins' = ins /\ couts' = outs /\ sst' = sst \cup outs /\ used' = used \cup outs
+OutChoices(ins) == {{}} \cup {{f} : f \in ins}                                                   \* all collected; an input re-created
+                        \cup {{f} : f \in {g \in OutFiles : g \notin removedEver /\ g \notin cur.files /\ g \notin sst}}   \* a new file
+                        \cup (IF CrossRecreate THEN {{f} : f \in removedEver \ cur.files} ELSE {})
+CLink == /\ up /\ cpc = "idle" /\ cur.files # {}
+         /\ \E ins \in (SUBSET cur.files) \ {{}} : \E outs \in OutChoices(ins) :
+              /\ (mpc = "linked" => mfile \notin ins)
+              /\ cins' = ins /\ couts' = outs /\ sst' = sst \cup outs      \* AlreadyExists is not an error
          /\ cpc' = "linked"
-         /\ UNCHANGED <<frags, trash, logs, up, mpc, mfile, pinned, unref, edits, crashes>>
-CEdit == /\ up /\ cpc = "linked" /\ edits < MaxEdits
-         /\ frags' = AppendEdit([rm |-> cins, add |-> couts]) /\ edits' = edits + 1
-         \* the new version replaces the old: inputs no longer named by any version are unreferenced at once
-         /\ unref' = unref \cup ((cins \ couts) \ pinned)
-         /\ cpc' = "idle" /\ cins' = {} /\ couts' = {}
-         /\ UNCHANGED <<sst, trash, logs, up, mpc, mfile, pinned, used, crashes>>
-\* explicit_unref: the rename into trash/ (its result is ignored: an existing trash copy is overwritten)
-Retire == /\ up /\ \E f \in unref :
-               /\ unref' = unref \ {f}
-               /\ IF f \in sst /\ f \notin Listed THEN sst' = sst \ {f} /\ trash' = trash \cup {f} ELSE UNCHANGED <<sst, trash>>
-          /\ UNCHANGED <<frags, logs, up, mpc, mfile, cpc, cins, couts, pinned, used, edits, crashes>>
+         /\ UNCHANGED <<frags, trash, logs, written, up, cur, held, cnt, todo, mpc, mfile, removedEver, vid, edits, crashes>>
+CInstall == /\ up /\ cpc = "linked" /\ edits < MaxEdits
+            /\ cins \subseteq cur.files                       \* (a flush may have installed in between: inputs are still there)
+            /\ frags' = AppendEdit(frags, [rm |-> cins, add |-> couts]) /\ edits' = edits + 1
+            /\ Install((cur.files \ cins) \cup couts)
+            /\ removedEver' = removedEver \cup (cins \ couts)
+            /\ cpc' = "idle" /\ cins' = {} /\ couts' = {}
+            /\ UNCHANGED <<sst, trash, logs, written, up, held, mpc, mfile, crashes>>
 
-RollOver == /\ up /\ Len(frags) < MaxFrags /\ mpc # "linked" /\ cpc # "linked"     \* roll-over happens inside an apply
-            /\ Len(Live) > 1
-            /\ frags' = Rolled
-            /\ UNCHANGED <<sst, trash, logs, up, mpc, mfile, cpc, cins, couts, pinned, unref, used, edits, crashes>>
+\* Manifest roll-over (inside an apply; modelled between steps): the live file becomes a numbered fragment
+RollOver == /\ up /\ Len(frags) < MaxFrags /\ Len(frags[Len(frags)]) > 1
+            /\ frags' = Rolled(frags)
+            /\ UNCHANGED <<sst, trash, logs, written, up, cur, held, cnt, todo, mpc, mfile, cpc, cins, couts, removedEver, vid, edits, crashes>>
 
 (* --------------------------------- verifier ------------------------------- *)
-\* consumes the oldest numbered fragment: unlinks the trash copies of what it removed (unless a later edit mentions the
-\* name again: that copy may be the re-created file's), then the fragment
-RECURSIVE Removed(_, _, _)
-Removed(s, es, i) == IF i > Len(es) THEN s ELSE Removed(s \cup es[i].rm, es, i + 1)
-RECURSIVE MentionedLater(_, _)
-MentionedLater(fs, k) == IF k > Len(fs) THEN {} ELSE
-                           LET RECURSIVE m(_, _) m(es, i) == IF i > Len(es) THEN {} ELSE es[i].rm \cup es[i].add \cup m(es, i + 1)
-                           IN m(fs[k], 1) \cup MentionedLater(fs, k + 1)
+\* consumes the oldest numbered fragment: unlinks the trash copies of what it removed unless a later edit mentions
+\* the name again (that copy may be the re-created file's), then the fragment itself.  It never touches sst/.
+RECURSIVE RemovedBy(_, _)
+RemovedBy(es, i) == IF i > Len(es) THEN {} ELSE es[i].rm \cup RemovedBy(es, i + 1)
+RECURSIVE MentionedIn(_, _)
+MentionedIn(es, i) == IF i > Len(es) THEN {} ELSE es[i].rm \cup es[i].add \cup MentionedIn(es, i + 1)
+RECURSIVE MentionedFrom(_, _)
+MentionedFrom(fs, k) == IF k > Len(fs) THEN {} ELSE MentionedIn(fs[k], 2) \cup MentionedFrom(fs, k + 1)
 Verify == /\ Len(frags) > 1
-          /\ LET gone == Removed({}, frags[1], 2)
-                 keep == IF "VerifierIgnoresLater" \in Dev THEN {} ELSE MentionedLater(frags, 2)
-             IN trash' = trash \ (gone \ keep)
+          /\ trash' = trash \ (RemovedBy(frags[1], 2) \ MentionedFrom(frags, 2))
           /\ frags' = Tail(frags)
-          /\ UNCHANGED <<sst, logs, up, mpc, mfile, cpc, cins, couts, pinned, unref, used, edits, crashes>>
+          /\ UNCHANGED <<sst, logs, written, up, cur, held, cnt, todo, mpc, mfile, cpc, cins, couts, removedEver, vid, edits, crashes>>
 
 (* ------------------------------ crash and reopen -------------------------- *)
 Crash == /\ up /\ crashes < MaxCrash
          /\ up' = FALSE /\ crashes' = crashes + 1
-         /\ mpc' = "idle" /\ mfile' = 0 /\ cpc' = "idle" /\ cins' = {} /\ couts' = {} /\ pinned' = {} /\ unref' = {}
-         /\ UNCHANGED <<frags, sst, trash, logs, used, edits>>
+         /\ held' = {} /\ cnt' = Zero /\ todo' = {}
+         /\ mpc' = "idle" /\ mfile' = "" /\ cpc' = "idle" /\ cins' = {} /\ couts' = {}
+         /\ UNCHANGED <<frags, sst, trash, logs, written, cur, removedEver, vid, edits>>
 
-\* open: roll the manifest over; replay every log in the root; scan for orphans
 Reopen == /\ ~up
-          /\ LET f1 == IF Len(frags) < MaxFrags + 1 THEN Rolled ELSE frags
-                 listed1 == FoldEdits({}, f1[Len(f1)], 1)
+          /\ LET f1 == IF Len(frags) <= MaxFrags THEN Rolled(frags) ELSE frags
+                 listed1 == ListedIn(f1)
                  tolist == IF "ReplaySkipsListing" \in Dev THEN {f \in logs : f \notin sst /\ f \notin listed1} ELSE logs \ listed1
-                 f2 == IF tolist = {} THEN f1 ELSE [f1 EXCEPT ![Len(f1)] = Append(@, [rm |-> {}, add |-> tolist])]
+                 f2 == IF tolist = {} THEN f1 ELSE AppendEdit(f1, [rm |-> {}, add |-> tolist])
                  sst2 == sst \cup logs
                  orphans == {f \in Orphans(f2) : f \in sst2 /\ f \notin trash}
+                 listed2 == ListedIn(f2)
              IN /\ frags' = f2
                 /\ sst' = sst2 \ orphans /\ trash' = trash \cup orphans
+                /\ cur' = [id |-> vid + 1, files |-> listed2] /\ vid' = vid + 1
+                /\ cnt' = Up1(Zero, listed2)
           /\ logs' = {} /\ up' = TRUE
-          /\ UNCHANGED <<mpc, mfile, cpc, cins, couts, pinned, unref, used, edits, crashes>>
+          /\ UNCHANGED <<written, held, todo, mpc, mfile, cpc, cins, couts, removedEver, edits, crashes>>
 
-Next == \/ \E f \in Files : WriteLog(f)
-        \/ Hold \/ Drop \/ MLink \/ MList \/ MTrashLog \/ CLink \/ CEdit \/ Retire \/ RollOver \/ Verify \/ Crash \/ Reopen
+Next == \/ \E f \in LogFiles : WriteLog(f)
+        \/ Hold \/ (\E v \in held : Drop(v)) \/ (\E f \in Files : Rename(f))
+        \/ MLink \/ MInstall \/ MTrashLog \/ CLink \/ CInstall \/ RollOver \/ Verify \/ Crash \/ Reopen
 Spec == Init /\ [][Next]_vars
 
 (* -------------------------------- properties ----------------------------- *)
-\* what the manifest lists is in sst/: at every instant, running or not (a crash may strike anywhere)
+\* what the manifest lists is in sst/, at every instant (a crash may strike anywhere; after it the manifest is all there is)
 ListedPresent == Listed \subseteq sst
-\* what a reader holds is still readable: in sst/ (or at least not unlinked while held is what the code needs; the rename
-\* keeps the inode, the model asks that it has not been moved while held)
-HeldPresent == pinned \subseteq sst
-\* an unreplayed log is never lost: its file is listed after the next open (checked as: logs only leave the root by the
-\* memtable thread after listing, or by replay)
-LogsReplayed == up => \A f \in used : (f \in logs \/ f \in sst \/ f \in trash \/ f \notin Listed)
-\* the scan's purpose: after an open nothing recorded as removed-and-not-re-added stays in sst/ without a trash copy
-Collected == (up /\ mpc = "idle" /\ cpc = "idle" /\ unref = {} /\ pinned = {} /\ crashes > 0) => TRUE
-TypeOK == /\ mpc \in {"idle", "linked", "listed"} /\ cpc \in {"idle", "linked"} /\ Len(frags) >= 1
+\* what a running store's current version and its readers' versions name is in sst/
+VersionsPresent == up => (cur.files \subseteq sst /\ \A v \in held : v.files \subseteq sst)
+\* an acknowledged write is in a log in the root or in a listed file
+WritesKept == \A f \in written : f \in logs \/ f \in Listed \/ f \in removedEver
+\* the counter never under-counts the current version
+CountsCover == up => \A f \in cur.files : cnt[f] >= 1
+TypeOK == /\ mpc \in {"idle", "linked", "installed"} /\ cpc \in {"idle", "linked"} /\ Len(frags) >= 1
+          /\ todo \subseteq Files /\ sst \subseteq Files /\ trash \subseteq Files
 =============================================================================
